@@ -23,6 +23,12 @@ fn main() {
         Some("replay") => cmd_replay(&args),
         Some("gen-selftest") => cmd_gen_selftest(&args),
         Some("exp-c06") => cmd_exp_c06(&args),
+        Some("c05-debug") => {
+            let v: Violation = serde_json::from_str(&std::fs::read_to_string(&args[2]).unwrap()).unwrap();
+            let sc: checks::c05::Scenario = serde_json::from_value(v.scenario).unwrap();
+            checks::c05::debug(&sc, args[3].parse().unwrap(), args[4].parse().unwrap(), args[5].parse().unwrap());
+            0
+        }
         Some("scenario-dump") => {
             let tier = if arg(&args, "--tier") == Some("thorough") { Tier::Thorough } else { Tier::Quick };
             println!("{}", checks::scenario_json(&args[2], args[3].parse().unwrap(), tier));
@@ -48,7 +54,9 @@ fn cmd_run(args: &[String]) -> i32 {
     let stride: u64 = arg(args, "--stride").unwrap_or("1").parse().unwrap();
     let log_path = arg(args, "--log").map(|s| s.to_string());
     std::fs::create_dir_all(&out).ok();
-    harness::install_panic_hook();
+    if std::env::var("VERIF_LOUD_PANIC").is_err() {
+        harness::install_panic_hook();
+    }
 
     let cur_path = format!("{out}/cur-{worker}");
     let mut cur = std::fs::OpenOptions::new().create(true).write(true).truncate(true).open(&cur_path).unwrap();
